@@ -265,6 +265,8 @@ namespace bloch::runtime {
         // First error raised by a user destructor; re-raised at the next statement boundary
         // because a destructor runs inside a shared_ptr deleter, which must not throw.
         std::exception_ptr m_pendingDestructorError;
+        // Work list of the outermost object release in progress (see destroyObject).
+        std::vector<Value>* m_releaseSink = nullptr;
         // Buffer for echo outputs so logs (INFO/WARNING/ERROR)
         // can be displayed first before normal program output.
         std::vector<std::string> m_echoBuffer;
